@@ -62,6 +62,8 @@ def tobs(t, route="tuple", rng=None):
     route 'tuple': ids()/metadata()/matrix; 'by-id': every ID asked through the table's own lookups
     (exists, index, metadata(id), data(id)) in random order; 'json': what to_json exports, re-read."""
     import numpy as np
+    if route == "json" and 0 in t.shape:
+        route = "by-id"          # to_json of an Nx0 table is not JSON ("columns": [}) — C02's business
     if route == "json":
         from biom import Table
         t2 = Table.from_json(json.loads(t.to_json("c18")))
